@@ -134,6 +134,11 @@ def bounded_consistency(rep, res, entry, ub):
                       where=ev.loc, construct=f"{ev.d['callee'].name}(… bounded=…)", entry=entry, config=res.config)
 
 
+def as_dim_(v):
+    from ..extern import as_dim
+    return as_dim(v) if v is not None else None
+
+
 def vertex_set(rep, res, entry):
     """the vertex cloud is the image of ALL 2^n corners of the intensity box: product over a two-element literal set with
     repeat = number of sources, affinely mapped by (ub − lb), + lb"""
@@ -143,6 +148,15 @@ def vertex_set(rep, res, entry):
         evs = [ev for ev in res.events("ext_call") if ev.d["dotted"] == "itertools.product" and any(
             "get_P_from_A" in q for q in ev.path)]
     if not evs:
+        # the same table written as the binary digits of 0 … 2^n − 1
+        for ev in res.events("corner_table")[:1]:
+            rep.check("R-FLOW", "corner set {0,1}^n", bool(ev.d["complete"]), where=ev.loc, construct=ev.text(), entry=entry, config=res.config,
+                      msg="the digit table does not enumerate all 2^n rows of n digits")
+            d = as_dim_(ev.d["repeat"])
+            rep.check("R-FLOW", "one factor per source", None if d is None else d == ("SRC",), where=ev.loc, construct=ev.text(),
+                      entry=entry, config=res.config, msg=f"digits per row: {d}")
+            corner_map(rep, res, entry)
+            return
         rep.undecided("R-FLOW", "all corners of the intensity box", entry=entry, config=res.config, construct="product([0, 1], repeat=n)")
         return
     for ev in evs[:1]:
